@@ -16,12 +16,17 @@ for t in tiers:
             print(r.stdout[-800:])
             sys.exit(1)
 led = json.load(open(f"{V}/ledger.json")) if os.path.exists(f"{V}/ledger.json") and "--merge" in sys.argv else {}
+per_tier = {}
 for part in sorted(glob.glob(f"{V}/ledger_parts/*.json")):
-    prop = os.path.basename(part).split("-")[0]
+    prop, tier = os.path.basename(part)[:-5].split("-")
     d = json.load(open(part))
     cur = led.setdefault(prop, {})
     fns = sorted(set(cur.get("__functions__", [])) | set(d.pop("__functions__", [])))
+    per_tier.setdefault(prop, {})[tier] = set(d)
     cur.update(d)
     cur["__functions__"] = fns
+for prop, t in per_tier.items():
+    if "quick" in t and "thorough" in t:
+        led[prop]["__thorough_only__"] = sorted(t["thorough"] - t["quick"])
 json.dump(led, open(f"{V}/ledger.json", "w"), indent=0, sort_keys=True)
 print("ledger:", {k: len(v) - 1 for k, v in led.items()})
